@@ -309,8 +309,11 @@ func ifaceChoices(jsonSafe bool) []reflect.Type {
 }
 
 type genOpts struct {
-	jsonSafe bool // no byte strings, finite floats, valid UTF-8
-	depth    int
+	jsonSafe  bool // no byte strings, finite floats, valid UTF-8
+	depth     int
+	roundtrip bool // untyped slots hold only what the round-trip equality can see through
+	tagged    bool // the atlas registers tags (so tagged types may sit in untyped slots, CBOR only)
+	cbor      bool
 }
 
 func genValue(r *rng, t reflect.Type, o genOpts) string {
@@ -352,7 +355,7 @@ func genValue(r *rng, t reflect.Type, o genOpts) string {
 		return "s" + hex.EncodeToString([]byte(s))
 	case reflect.Slice:
 		if t.Elem().Kind() == reflect.Uint8 {
-			if r.chance(1, 4) {
+			if r.chance(1, 4) || o.jsonSafe {
 				return "xn"
 			}
 			return "x" + hexStr(r.intn(5), byte(r.intn(256)))
@@ -411,6 +414,17 @@ func genValue(r *rng, t reflect.Type, o genOpts) string {
 			return fmt.Sprintf("I%d:%s", tid(ct), genValue(r, ct, d))
 		}
 		cs := ifaceChoices(o.jsonSafe)
+		if o.roundtrip {
+			cs = []reflect.Type{reflect.TypeOf(false), reflect.TypeOf(int(0)), reflect.TypeOf(int8(0)), reflect.TypeOf(int64(0)),
+				reflect.TypeOf(uint16(0)), reflect.TypeOf(uint64(0)), reflect.TypeOf(float64(0)), reflect.TypeOf(float32(0)), reflect.TypeOf(""),
+				reflect.TypeOf([]interface{}{}), reflect.TypeOf(map[string]interface{}{})}
+			if !o.jsonSafe {
+				cs = append(cs, reflect.TypeOf([]byte{}))
+			}
+			if o.tagged && o.cbor {
+				cs = append(cs, reflect.TypeOf(Inner{}), reflect.TypeOf(TrNum(0)), reflect.TypeOf(TrBytes{}))
+			}
+		}
 		ct := cs[r.intn(len(cs))]
 		return fmt.Sprintf("I%d:%s", tid(ct), genValue(r, ct, d))
 	case reflect.Struct:
